@@ -35,6 +35,30 @@ Proof.
   - intros H. exists n. split; [exact H|apply Nat.eqb_refl].
 Qed.
 
+Lemma flat_map_length_incl {X Y} (f : X -> list Y) l :
+  NoDup l -> forall l', incl l l' -> length (flat_map f l) <= length (flat_map f l').
+Proof.
+  induction l as [|a l IH]; intros Hnd l' Hi; cbn [flat_map]; [cbn; lia|].
+  apply NoDup_cons_iff in Hnd. destruct Hnd as [Hna Hnd].
+  assert (Ha : In a l') by (apply Hi; left; reflexivity).
+  apply in_split in Ha. destruct Ha as (l1 & l2 & ->).
+  assert (Hi' : incl l (l1 ++ l2)).
+  { intros x Hx. assert (Hx' : In x (l1 ++ a :: l2)) by (apply Hi; right; exact Hx).
+    apply in_app_or in Hx'. apply in_or_app. destruct Hx' as [Hx'|[Hx'|Hx']]; [left; exact Hx'| |right; exact Hx'].
+    subst x. contradiction. }
+  specialize (IH Hnd _ Hi'). rewrite flat_map_app in IH |- *. cbn [flat_map].
+  rewrite !app_length in IH. rewrite !app_length. lia.
+Qed.
+
+Lemma filter_length_le {X} (f : X -> bool) l : length (filter f l) <= length l.
+Proof. induction l as [|a l IH]; cbn [filter length]; [lia|]. destruct (f a); cbn [length]; lia. Qed.
+
+Lemma filter_all {X} (f : X -> bool) l : (forall x, In x l -> f x = true) -> filter f l = l.
+Proof.
+  induction l as [|a l IH]; intros H; cbn [filter]; [reflexivity|].
+  rewrite (H a (or_introl eq_refl)). f_equal. apply IH. intros x Hx. apply H. right. exact Hx.
+Qed.
+
 Section BackpropP.
 Context {A : Type} {SA : Scalar A}.
 Notation T := (tensor A).
@@ -229,6 +253,15 @@ Lemma wf_heap_edgesOf (h : heap) : wf_heap h -> forall c e, In e (edgesOf h c) -
 Proof.
   intros H c e He. unfold edgesOf in He. destruct (nth_error h c) as [n|] eqn:En; [|destruct He].
   eapply H; eauto.
+Qed.
+
+(* the same invariant in the Forall form used by Proofs/TrackP.v *)
+Lemma wf_heap_Forall (h : heap) :
+  wf_heap h <-> forall i n, nth_error h i = Some n -> Forall (fun e : nat * rule => fst e < i) (nedges n).
+Proof.
+  split.
+  - intros H i n Hn. apply Forall_forall. intros e He. eapply H; eauto.
+  - intros H c n e Hn He. specialize (H c n Hn). rewrite Forall_forall in H. apply H. exact He.
 Qed.
 
 Fixpoint ordered (h : heap) (p : list nat) : Prop :=
@@ -682,6 +715,226 @@ Definition bp_topo_cnt (h : heap) (root : nat) : heap * list (nat * T) * res uni
       end
   end.
 
+Definition graded (hh : heap) (c : nat) : bool := match gradOf hh c with Some _ => true | None => false end.
+
+Lemma pe_cnt_step c st k e : fst (process_edge_cnt c (st, k) e) = process_edge rd c st e.
+Proof.
+  destruct st as [h [[]| |]]; cbn [process_edge_cnt process_edge]; [|reflexivity|reflexivity].
+  destruct (trackedOf h (fst e)); [|reflexivity]. destruct (eval_rule rd h (snd e)); reflexivity.
+Qed.
+
+Lemma pe_cnt_fst c es : forall st k,
+  fst (fold_left (process_edge_cnt c) es (st, k)) = fold_left (process_edge rd c) es st.
+Proof.
+  induction es as [|e es IH]; intros st k; cbn [fold_left]; [reflexivity|].
+  rewrite <- (pe_cnt_step c st k e). destruct (process_edge_cnt c (st, k) e) as [st1 k1]. apply IH.
+Qed.
+
+Lemma pe_cnt_sticky c es : forall (h : heap) r k, r <> Ok tt ->
+  fold_left (process_edge_cnt c) es (h, r, k) = (h, r, k).
+Proof.
+  induction es as [|e es IH]; intros h r k Hr; cbn [fold_left]; [reflexivity|].
+  destruct r as [[]| |]; [congruence| |]; cbn [process_edge_cnt]; apply IH; assumption.
+Qed.
+
+Lemma pe_cnt_count c es : forall (h : heap) k st' k',
+  fold_left (process_edge_cnt c) es (h, Ok tt, k) = (st', k') -> snd st' = Ok tt ->
+  k' = k + length (filter (fun e => trackedOf h (fst e)) es).
+Proof.
+  induction es as [|e es IH]; intros h k st' k' E Hok; cbn [fold_left] in E.
+  - inversion E. cbn. lia.
+  - cbn [process_edge_cnt filter] in E |- *. destruct (trackedOf h (fst e)) eqn:Et.
+    + destruct (eval_rule rd h (snd e)) as [g| |].
+      * destruct (accumulate h (fst e) g) as [h1 r1] eqn:Ea. destruct r1 as [[]| |].
+        -- destruct (accumulate_ok _ _ _ _ _ Ea eq_refl) as (o' & _ & Hh1).
+           rewrite (IH h1 (S k) st' k' E Hok). cbn [length].
+           rewrite (filter_ext (fun e0 => trackedOf h1 (fst e0)) (fun e0 => trackedOf h (fst e0))); [lia|].
+           intros e0. subst h1. apply trackedOf_setGrad.
+        -- rewrite pe_cnt_sticky in E by discriminate. inversion E; subst st'. discriminate.
+        -- rewrite pe_cnt_sticky in E by discriminate. inversion E; subst st'. discriminate.
+      * rewrite pe_cnt_sticky in E by discriminate. inversion E; subst st'. discriminate.
+      * rewrite pe_cnt_sticky in E by discriminate. inversion E; subst st'. discriminate.
+    + apply (IH h k st' k' E Hok).
+Qed.
+
+Lemma pn_cnt_step st k c : fst (process_node_cnt (st, k) c) = process_node rd idseal st c.
+Proof.
+  destruct st as [[h log] [[]| |]]; cbn [process_node_cnt process_node]; [|reflexivity|reflexivity].
+  destruct (nth_error h c) as [n|]; [|reflexivity]. destruct (ngrad n) as [g|]; [|reflexivity].
+  rewrite <- (pe_cnt_fst c (nedges n) (setGrad h c (Some g), Ok tt) k).
+  destruct (fold_left (process_edge_cnt c) (nedges n) (setGrad h c (Some g), Ok tt, k)) as [[h2 r] k2].
+  reflexivity.
+Qed.
+
+Lemma pn_cnt_fst l : forall st k,
+  fst (fold_left process_node_cnt l (st, k)) = fold_left (process_node rd idseal) l st.
+Proof.
+  induction l as [|c l IH]; intros st k; cbn [fold_left]; [reflexivity|].
+  rewrite <- (pn_cnt_step st k c). destruct (process_node_cnt (st, k) c) as [st1 k1]. apply IH.
+Qed.
+
+Lemma pn_cnt_count (h : heap) log k c st' k' :
+  process_node_cnt (h, log, Ok tt, k) c = (st', k') -> snd st' = Ok tt ->
+  k' = k + (if graded h c then length (filter (fun e => trackedOf h (fst e)) (edgesOf h c)) else 0).
+Proof.
+  cbn [process_node_cnt]. unfold graded, gradOf, edgesOf. destruct (nth_error h c) as [n|]; [|intros E; inversion E; subst st'; discriminate].
+  cbn [obind]. destruct (ngrad n) as [g|]; [|intros E _; inversion E; lia].
+  destruct (fold_left (process_edge_cnt c) (nedges n) (setGrad h c (Some g), Ok tt, k)) as [[h2 r] k2] eqn:Ef.
+  intros E Hok. inversion E; subst st' k'. cbn [snd] in Hok. subst r.
+  rewrite (pe_cnt_count _ _ _ _ _ _ Ef eq_refl). f_equal. f_equal. apply filter_ext. intros e0. apply trackedOf_setGrad.
+Qed.
+
+Lemma bp_fold_untouched l (h : heap) log h' log' c :
+  rules_own h -> wf_heap h -> NoDup (c :: l) -> ordered h (c :: l) -> (forall c0, In c0 (c :: l) -> trackedOf h c0 = true) ->
+  fold_left (process_node rd idseal) l (h, log, Ok tt) = (h', log', Ok tt) ->
+  gradOf h' c = gradOf h c.
+Proof.
+  intros Hown Hwf Hnd Hord Htr E. apply NoDup_cons_iff in Hnd. destruct Hnd as [Hnc Hnd]. destruct Hord as [Hc Hord].
+  assert (Htr' : forall c0, In c0 l -> trackedOf h c0 = true) by (intros c0 H0; apply Htr; right; exact H0).
+  destruct (bp_fold_spec _ _ _ _ _ Hown Hwf Hnd Hord Htr' E) as (_ & Iacc & _).
+  assert (Hct : trackedOf h c = true) by (apply Htr; left; reflexivity).
+  specialize (Iacc c Hct). unfold contributions in Iacc. rewrite flat_map_nil' in Iacc; [cbn [accAll] in Iacc; congruence|].
+  intros c' Hc'. apply flat_map_nil'. intros e He. unfold contrib_e.
+  destruct (fst e =? c) eqn:Ee; [|reflexivity]. apply Nat.eqb_eq in Ee. exfalso. apply Hnc.
+  rewrite <- Ee. eapply ordered_in; eauto; rewrite Ee; exact Hct.
+Qed.
+
+Definition tracked_edges (h : heap) (l : list nat) : list (nat * rule) :=
+  flat_map (fun c => filter (fun e => trackedOf h (fst e)) (edgesOf h c)) l.
+
+Lemma tracked_edges_sameS (h1 h2 : heap) l : sameS h1 h2 -> tracked_edges h1 l = tracked_edges h2 l.
+Proof.
+  intros HS. unfold tracked_edges. apply flat_map_ext_in'. intros c _. rewrite (sameS_edges _ _ HS).
+  apply filter_ext. intros e. apply (sameS_trk _ _ HS).
+Qed.
+
+Lemma bp_fold_cnt l : forall (h : heap) log k h' log' r' k',
+  rules_own h -> wf_heap h -> NoDup l -> ordered h l -> (forall c, In c l -> trackedOf h c = true) ->
+  fold_left process_node_cnt l (h, log, Ok tt, k) = (h', log', r', k') -> r' = Ok tt ->
+  k' = k + length (tracked_edges h (filter (graded h') l)).
+Proof.
+  induction l as [|c l IH]; intros h log k h' log' r' k' Hown Hwf Hnd Hord Htr E Hok.
+  - cbn [fold_left] in E. inversion E. cbn. lia.
+  - subst r'. pose proof (pn_cnt_fst (c :: l) (h, log, Ok tt) k) as Hf. rewrite E in Hf. cbn [fst] in Hf. symmetry in Hf.
+    destruct (pn_fold_cons _ _ _ _ _ _ Hf) as (h1 & log1 & E1 & E2).
+    cbn [fold_left] in E. pose proof (pn_cnt_step (h, log, Ok tt) k c) as Hs. rewrite E1 in Hs.
+    destruct (process_node_cnt (h, log, Ok tt, k) c) as [st1 k1] eqn:Ec. cbn [fst] in Hs. subst st1.
+    pose proof (pn_cnt_count _ _ _ _ _ _ Ec eq_refl) as Hk1.
+    destruct (process_node_spec _ _ _ _ _ Hown Hwf E1) as (NS & Nc & _).
+    assert (Hnd' : NoDup l) by (apply NoDup_cons_iff in Hnd; tauto).
+    assert (Hown1 : rules_own h1) by (eapply rules_own_sameS; eauto).
+    assert (Hwf1 : wf_heap h1) by (eapply wf_heap_sameS; eauto).
+    assert (Hord1 : ordered h1 (c :: l)) by (eapply ordered_sameS; eauto).
+    assert (Htr1 : forall c0, In c0 (c :: l) -> trackedOf h1 c0 = true).
+    { intros c0 H0. rewrite <- (sameS_trk _ _ NS). apply Htr. exact H0. }
+    pose proof (bp_fold_untouched _ _ _ _ _ _ Hown1 Hwf1 Hnd Hord1 Htr1 E2) as Hfin.
+    rewrite (IH h1 log1 k1 h' log' (Ok tt) k' Hown1 Hwf1 Hnd' (proj2 Hord1) (fun c0 H0 => Htr1 c0 (or_intror H0)) E eq_refl).
+    rewrite Hk1. rewrite <- (tracked_edges_sameS _ _ (filter (graded h') l) NS).
+    cbn [filter]. assert (Hg : graded h' c = graded h c) by (unfold graded; rewrite Hfin, Nc; reflexivity).
+    rewrite Hg. destruct (graded h c).
+    + unfold tracked_edges at 2. cbn [flat_map]. rewrite app_length. fold (tracked_edges h (filter (graded h') l)). lia.
+    + lia.
+Qed.
+
+Lemma bp_topo_cnt_fst (h : heap) root : fst (bp_topo_cnt h root) = bp_topo rd idseal h root.
+Proof.
+  unfold bp_topo_cnt, bp_topo. destruct (negb (trackedOf h root)); [reflexivity|].
+  destruct (valOf (markDirty h (topoOrder h root)) root) as [rv|]; [|reflexivity].
+  destruct (toOnes rv) as [ones| |]; [|reflexivity|reflexivity].
+  destruct (accumulate (markDirty h (topoOrder h root)) root ones) as [h2 [[]| |]]; [|reflexivity|reflexivity].
+  apply pn_cnt_fst.
+Qed.
+
+Lemma flat_map_edgesOf_seq : forall (h pre : heap),
+  flat_map (edgesOf (pre ++ h)) (seq (length pre) (length h)) = flat_map (@nedges A) h.
+Proof.
+  induction h as [|x h IH]; intros pre; cbn [length seq flat_map]; [reflexivity|]. f_equal.
+  - unfold edgesOf. rewrite nth_error_app2 by lia. rewrite Nat.sub_diag. reflexivity.
+  - specialize (IH (pre ++ [x])). rewrite <- app_assoc in IH. cbn [app] in IH.
+    rewrite app_length in IH. cbn [length] in IH. rewrite Nat.add_1_r in IH. exact IH.
+Qed.
+
+Lemma tracked_edges_le (h : heap) l :
+  NoDup l -> (forall c, In c l -> c < length h) ->
+  length (tracked_edges h l) <= length (flat_map (@nedges A) h).
+Proof.
+  intros Hnd Hlt. rewrite <- (flat_map_edgesOf_seq h []). cbn [app length].
+  apply Nat.le_trans with (length (flat_map (edgesOf h) l)).
+  - unfold tracked_edges. clear. induction l as [|c l IH]; cbn [flat_map]; [lia|].
+    rewrite !app_length. pose proof (filter_length_le (fun e => trackedOf h (fst e)) (edgesOf h c)). lia.
+  - apply flat_map_length_incl; [exact Hnd|]. intros c Hc. apply in_seq. specialize (Hlt c Hc). lia.
+Qed.
+
+(* RULE COUNT: the instrumented run is the run, and it evaluates each tracked back edge of each
+   member of the order that carries a gradient exactly once *)
+Theorem bp_topo_rule_count (h : heap) root h' log k :
+  rules_own h -> wf_heap h -> trackedOf h root = true ->
+  let order := topoOrder h root in
+  NoDup order -> (forall c, In c order -> trackedOf h c = true) -> ordered h order ->
+  bp_topo_cnt h root = (h', log, Ok tt, k) ->
+  bp_topo rd idseal h root = (h', log, Ok tt) /\
+  k = length (tracked_edges h (filter (graded h') order)) /\
+  k <= length (flat_map (@nedges A) h).
+Proof.
+  intros Hown Hwf Hroot order Hnd Htr Hord E.
+  assert (E0 : bp_topo rd idseal h root = (h', log, Ok tt)) by (rewrite <- bp_topo_cnt_fst, E; reflexivity).
+  split; [exact E0|].
+  assert (Hk : k = length (tracked_edges h (filter (graded h') order))).
+  { unfold bp_topo_cnt in E. rewrite Hroot in E. cbn [negb] in E. fold order in E.
+    set (h1 := markDirty h order) in *.
+    destruct (valOf h1 root) as [rv|]; [|inversion E].
+    destruct (toOnes rv) as [ones| |]; [|inversion E|inversion E].
+    destruct (accumulate h1 root ones) as [h2 r] eqn:Ea.
+    destruct r as [[]| |]; [|inversion E|inversion E].
+    destruct (accumulate_ok _ _ _ _ _ Ea eq_refl) as (o' & _ & Hh2).
+    assert (HS2 : sameS h h2) by (eapply sameS_trans; [apply sameS_markDirty|subst h2; apply sameS_setGrad]).
+    assert (Htr2 : forall c, In c order -> trackedOf h2 c = true).
+    { intros c Hc. rewrite <- (sameS_trk _ _ HS2). apply Htr. exact Hc. }
+    rewrite (bp_fold_cnt _ _ _ _ _ _ _ _ (rules_own_sameS _ _ HS2 Hown) (wf_heap_sameS _ _ HS2 Hwf) Hnd
+                         (ordered_sameS _ _ _ HS2 Hord) Htr2 E eq_refl).
+    cbn [Nat.add]. rewrite (tracked_edges_sameS _ _ _ HS2). reflexivity. }
+  split; [exact Hk|]. rewrite Hk. apply tracked_edges_le.
+  - apply NoDup_filter. exact Hnd.
+  - intros c Hc. apply filter_In in Hc. apply tracked_lt. apply Htr. apply Hc.
+Qed.
+
+(* when every member of the order other than the root is an edge target of a member (as in a DFS order),
+   every member ends with a gradient: all its tracked back edges were evaluated, successfully *)
+Theorem bp_topo_graded (h : heap) root h' log :
+  rules_own h -> wf_heap h -> trackedOf h root = true ->
+  let order := topoOrder h root in
+  NoDup order -> (forall c, In c order -> trackedOf h c = true) -> ordered h order -> In root order ->
+  (forall c, In c order -> c = root \/ exists p e, In p order /\ In e (edgesOf h p) /\ fst e = c) ->
+  bp_topo rd idseal h root = (h', log, Ok tt) ->
+  (forall c, In c order -> gradOf h' c <> None) /\
+  (forall c e, In c order -> In e (edgesOf h c) -> trackedOf h (fst e) = true -> exists g, eval_rule rd h' (snd e) = Ok g) /\
+  filter (graded h') order = order.
+Proof.
+  intros Hown Hwf Hroot order Hnd Htr Hord Hin Hreach E.
+  destruct (bp_topo_adjoint h root h' log Hown Hwf Hroot Hnd Htr Hord Hin E)
+    as (rv & ones & _ & _ & _ & _ & _ & Hacc & Hok & _).
+  assert (Hg : forall k c, In c order -> length h <= c + k -> gradOf h' c <> None).
+  { induction k as [|k IHk]; intros c Hc Hlen.
+    - pose proof (tracked_lt _ _ (Htr c Hc)). lia.
+    - specialize (Hacc c Hc). destruct (Hreach c Hc) as [->|(p & e & Hp & He & Hfe)].
+      + rewrite Nat.eqb_refl in Hacc. eapply accAll_nonempty; [exact Hacc|]. cbn [app]. discriminate.
+      + assert (Hpc : fst e < p) by (apply (wf_heap_edgesOf _ Hwf _ _ He)).
+        assert (Hgp : gradOf h' p <> None) by (apply IHk; [exact Hp|lia]).
+        assert (Ht : trackedOf h (fst e) = true) by (rewrite Hfe; apply Htr; exact Hc).
+        destruct (Hok p e Hp Hgp He Ht) as (g & Hgv).
+        eapply accAll_nonempty; [exact Hacc|]. intros Hnil. apply app_eq_nil in Hnil. destruct Hnil as [_ Hnil].
+        assert (Hing : In g (contributions h' h order c)).
+        { unfold contributions. apply in_flat_map. exists p. split; [exact Hp|]. apply in_flat_map. exists e.
+          split; [exact He|]. unfold contrib_e. rewrite Hfe, Nat.eqb_refl, Hgv. left. reflexivity. }
+        fold order in Hnil. rewrite Hnil in Hing. destruct Hing. }
+  assert (Hall : forall c, In c order -> gradOf h' c <> None).
+  { intros c Hc. apply (Hg (length h) c Hc). lia. }
+  split; [exact Hall|]. split.
+  - intros c e Hc He Ht. apply (Hok c e Hc (Hall c Hc) He Ht).
+  - apply filter_all. intros c Hc. unfold graded.
+    specialize (Hall c Hc). destruct (gradOf h' c); [reflexivity|congruence].
+Qed.
+
 End Run.
 
 (* ------------------------------------------------------------------------------------ *)
@@ -989,6 +1242,197 @@ Lemma wf_heap_markDirty h l : wf_heap h -> wf_heap (markDirty h l).
 Proof. apply edges_ok_markDirty. Qed.
 
 
+(* ------------------------------------------------------------------------------------ *)
+(* 6. the order computed by dfs satisfies the hypotheses of the theorems above           *)
+(* ------------------------------------------------------------------------------------ *)
+
+(* invariant: post ⊆ visited, ordered post, every open node (visited, not in post) is > bound *)
+Definition dinv (h : heap) (b : nat) (st : list nat * list nat) : Prop :=
+  incl (snd st) (fst st) /\ ordered h (snd st) /\ NoDup (snd st) /\
+  (forall o, In o (fst st) -> ~ In o (snd st) -> b < o) /\ (forall x, In x (snd st) -> trackedOf h x = true).
+
+Definition foldinv (h : heap) (n : nat) (s : list nat * list nat) : Prop :=
+  incl (snd s) (fst s) /\ ordered h (snd s) /\ NoDup (snd s) /\ (forall x, In x (snd s) -> trackedOf h x = true) /\
+  (forall o, In o (fst s) -> ~ In o (snd s) -> n <= o) /\ In n (fst s) /\ ~ In n (snd s).
+
+Lemma dfs_spec (h : heap) (W : wf_heap h) fuel : forall n st, n < fuel -> dinv h n st ->
+  let st' := dfs fuel h n st in
+  dinv h n st' /\ (exists new, snd st' = new ++ snd st /\ forall x, In x new -> ~ In x (fst st)) /\
+  incl (fst st) (fst st') /\
+  (forall o, In o (fst st') -> ~ In o (snd st') -> In o (fst st) /\ ~ In o (snd st)) /\
+  (trackedOf h n = true -> In n (snd st')).
+Proof.
+  induction fuel as [|f IH]; intros n st Hn Hinv; [lia|]. cbn [dfs].
+  destruct (negb (trackedOf h n) || memb n (fst st)) eqn:E.
+  - cbn zeta. split; [assumption|]. split; [exists []; split; [reflexivity|intros ? []]|].
+    split; [apply incl_refl|]. split; [tauto|].
+    intros Ht. rewrite Ht in E. cbn in E. apply memb_in in E.
+    destruct Hinv as (_ & _ & _ & Hopen & _). destruct (in_dec Nat.eq_dec n (snd st)) as [Hi|Hni]; [assumption|].
+    specialize (Hopen n E Hni). lia.
+  - apply orb_false_iff in E. destruct E as [Et Em]. apply negb_false_iff in Et.
+    assert (Hnv : ~ In n (fst st)) by (intro X; apply memb_in in X; congruence).
+    assert (Hs : Forall (fun e => fst e < n) (edgesOf h n)).
+    { apply Forall_forall. intros e He. apply (wf_heap_edgesOf _ W _ _ He). }
+    assert (Hfold : forall (es : list (nat * rule)) s, Forall (fun e => fst e < n) es -> foldinv h n s ->
+       let s' := fold_left (fun s e => dfs f h (fst e) s) es s in
+       foldinv h n s' /\ (exists new, snd s' = new ++ snd s /\ forall x, In x new -> ~ In x (fst s)) /\
+       incl (fst s) (fst s') /\
+       (forall o, In o (fst s') -> ~ In o (snd s') -> In o (fst s) /\ ~ In o (snd s)) /\
+       (forall e, In e es -> trackedOf h (fst e) = true -> In (fst e) (snd s'))).
+    { induction es as [|e es IHes]; intros s Hes Hs0; cbn [fold_left].
+      - cbn zeta. split; [assumption|]. split; [exists []; split; [reflexivity|intros ? []]|].
+        split; [apply incl_refl|]. split; [tauto|]. intros ? [].
+      - inversion Hes as [|? ? Hm Hes']; subst.
+        destruct Hs0 as (A1 & A2 & A3 & A4 & A5 & A6 & A7).
+        assert (Hi : dinv h (fst e) s).
+        { unfold dinv. repeat split; auto. intros o Ho Hno. specialize (A5 o Ho Hno). lia. }
+        destruct (IH (fst e) s ltac:(lia) Hi) as (J & (new & Jn & Jf) & Jv & Jo & Jm). cbn zeta in *.
+        set (s1 := dfs f h (fst e) s) in *. destruct J as (B1 & B2 & B3 & B4 & B5).
+        assert (Hs1 : foldinv h n s1).
+        { unfold foldinv. repeat split; auto.
+          - intros o Ho Hno. destruct (Jo o Ho Hno) as [X Y]. apply A5; auto.
+          - intros X. rewrite Jn in X. apply in_app_or in X. destruct X as [X|X]; [|tauto]. apply (Jf n X A6). }
+        destruct (IHes s1 Hes' Hs1) as (K & (new2 & Kn & Kf) & Kv & Ko & Km). cbn zeta in *.
+        split; [assumption|]. split.
+        { exists (new2 ++ new). split; [rewrite Kn, Jn, app_assoc; reflexivity|].
+          intros x Hx. apply in_app_or in Hx. destruct Hx as [Hx|Hx]; [intro Y; apply (Kf x Hx); auto|auto]. }
+        split; [eapply incl_tran; eauto|]. split.
+        + intros o Ho Hno. destruct (Ko o Ho Hno) as [X Y]. apply Jo; auto.
+        + intros e0 [<-|Hx] Htx; [|auto]. rewrite Kn. apply in_or_app. right. apply Jm. exact Htx. }
+    destruct Hinv as (I1 & I2 & I3 & I4 & I5).
+    assert (H0 : foldinv h n (n :: fst st, snd st)).
+    { unfold foldinv; cbn [fst snd]. repeat split; auto.
+      - intros x Hx; right; auto.
+      - intros o [->|Ho] Hno; [lia|]. specialize (I4 o Ho Hno). lia.
+      - left; reflexivity. }
+    destruct (Hfold (edgesOf h n) _ Hs H0) as (K & (new & Kn & Kf) & Kv & Ko & Km). cbn zeta in *.
+    set (st2 := fold_left (fun s e => dfs f h (fst e) s) (edgesOf h n) (n :: fst st, snd st)) in *.
+    destruct K as (K1 & K2 & K3 & K4 & K5 & K6 & K7). cbn [fst snd] in *.
+    split.
+    { unfold dinv; cbn [fst snd]. repeat split.
+      - intros x [->|Hx]; auto.
+      - intros e He Ht. apply Km; auto.
+      - assumption.
+      - constructor; assumption.
+      - intros o Ho Hno. assert (o <> n) by (intro; subst; apply Hno; left; reflexivity).
+        assert (n <= o) by (apply K5; auto; intro; apply Hno; right; assumption). lia.
+      - intros x [->|Hx]; auto. }
+    split.
+    { exists (n :: new). split; [cbn; rewrite Kn; reflexivity|].
+      intros x [->|Hx]; [assumption|]. intro Y. apply (Kf x Hx). right; assumption. }
+    split; [intros x Hx; apply Kv; right; assumption|]. split.
+    + intros o Ho Hno. assert (o <> n) by (intro; subst; apply Hno; left; reflexivity).
+      destruct (Ko o Ho) as [X Y]; [intro; apply Hno; right; assumption|]. destruct X as [X|X]; [congruence|]. split; assumption.
+    + intros _. left; reflexivity.
+Qed.
+
+(* the new elements are bounded by the start node and, except for it, are edge targets of new elements *)
+Lemma dfs_new (h : heap) (W : wf_heap h) fuel : forall n st,
+  exists new, snd (dfs fuel h n st) = new ++ snd st /\
+    forall x, In x new -> x <= n /\ (x = n \/ exists p e, In p new /\ In e (edgesOf h p) /\ fst e = x).
+Proof.
+  induction fuel as [|f IH]; intros n st; cbn [dfs].
+  - exists []. split; [reflexivity|intros x []].
+  - destruct (negb (trackedOf h n) || memb n (fst st)); [exists []; split; [reflexivity|intros x []]|].
+    assert (Hfold : forall (es : list (nat * rule)) s,
+       exists new, snd (fold_left (fun s e => dfs f h (fst e) s) es s) = new ++ snd s /\
+         forall x, In x new -> (exists e, In e es /\ x <= fst e) /\
+                               ((exists e, In e es /\ fst e = x) \/ exists p e, In p new /\ In e (edgesOf h p) /\ fst e = x)).
+    { induction es as [|e es IHes]; intros s; cbn [fold_left].
+      - exists []. split; [reflexivity|intros x []].
+      - destruct (IH (fst e) s) as (new1 & E1 & H1). destruct (IHes (dfs f h (fst e) s)) as (new2 & E2 & H2).
+        exists (new2 ++ new1). split; [rewrite E2, E1, app_assoc; reflexivity|].
+        intros x Hx. apply in_app_or in Hx. destruct Hx as [Hx|Hx].
+        + destruct (H2 x Hx) as [(e0 & He0 & Hle) Hr]. split; [exists e0; split; [right; exact He0|exact Hle]|].
+          destruct Hr as [(e1 & He1 & Hf1)|(p & e1 & Hp & He1 & Hf1)].
+          * left. exists e1. split; [right; exact He1|exact Hf1].
+          * right. exists p, e1. split; [apply in_or_app; left; exact Hp|split; assumption].
+        + destruct (H1 x Hx) as [Hle Hr]. split; [exists e; split; [left; reflexivity|exact Hle]|].
+          destruct Hr as [->|(p & e1 & Hp & He1 & Hf1)].
+          * left. exists e. split; [left; reflexivity|reflexivity].
+          * right. exists p, e1. split; [apply in_or_app; right; exact Hp|split; assumption]. }
+    destruct (Hfold (edgesOf h n) (n :: fst st, snd st)) as (new & En & Hnew). cbn [fst snd] in *.
+    exists (n :: new). split; [rewrite En; reflexivity|].
+    intros x [<-|Hx]; [split; [lia|left; reflexivity]|].
+    destruct (Hnew x Hx) as [(e0 & He0 & Hle) Hr]. pose proof (wf_heap_edgesOf _ W _ _ He0) as Hlt.
+    split; [lia|]. right. destruct Hr as [(e1 & He1 & Hf1)|(p & e1 & Hp & He1 & Hf1)].
+    + exists n, e1. split; [left; reflexivity|split; assumption].
+    + exists p, e1. split; [right; exact Hp|split; assumption].
+Qed.
+
+Theorem topoOrder_facts (h : heap) root :
+  wf_heap h -> trackedOf h root = true ->
+  let order := topoOrder h root in
+  NoDup order /\ (forall c, In c order -> trackedOf h c = true) /\ ordered h order /\
+  hd_error order = Some root /\ In root order /\
+  (forall c, In c order -> c <= root) /\
+  (forall c, In c order -> c = root \/ exists p e, In p order /\ In e (edgesOf h p) /\ fst e = c) /\
+  length order <= S root.
+Proof.
+  intros W Hroot order. unfold order, topoOrder.
+  assert (Hinv0 : dinv h root ([], [])).
+  { unfold dinv. cbn [fst snd ordered]. split; [intros ? []|]. split; [exact I|]. split; [constructor|]. split; intros ? []. }
+  destruct (dfs_spec h W (S root) root ([], []) ltac:(lia) Hinv0) as (J & _ & _ & _ & Jm). cbn zeta in *.
+  destruct (dfs_new h W (S root) root ([], [])) as (new & En & Hnew). cbn [snd] in En. rewrite app_nil_r in En.
+  destruct J as (_ & J2 & J3 & _ & J5).
+  assert (Hle : forall c, In c (snd (dfs (S root) h root ([], []))) -> c <= root).
+  { intros c Hc. rewrite En in Hc. apply (Hnew c Hc). }
+  split; [exact J3|]. split; [exact J5|]. split; [exact J2|]. split; [|split; [|split; [|split]]].
+  - cbn [dfs]. rewrite Hroot. cbn [negb orb memb existsb fst]. reflexivity.
+  - apply Jm. exact Hroot.
+  - exact Hle.
+  - intros c Hc. rewrite En in Hc |- *. destruct (Hnew c Hc) as [_ Hr]. exact Hr.
+  - apply Nat.le_trans with (length (seq 0 (S root))); [|rewrite seq_length; lia].
+    apply NoDup_incl_length; [exact J3|].
+    intros c Hc. apply in_seq. specialize (Hle c Hc). lia.
+Qed.
+
+(* ------------------------------------------------------------------------------------ *)
+(* 7. closed statements (no hypothesis left on the order)                                *)
+(* ------------------------------------------------------------------------------------ *)
+
+Theorem bp_topo_correct rd (h : heap) root h' log :
+  rules_own h -> wf_heap h -> trackedOf h root = true ->
+  bp_topo rd (fun _ g => g) h root = (h', log, Ok tt) ->
+  let order := topoOrder h root in
+  exists rv ones, valOf h root = Some rv /\ toOnes rv = Ok ones /\
+  length h' = length h /\
+  (forall i, valOf h' i = valOf h i /\ trackedOf h' i = trackedOf h i /\ edgesOf h' i = edgesOf h i) /\
+  (forall n, ~ In n order -> gradOf h' n = gradOf h n) /\
+  (forall n, In n order ->
+     accAll (gradOf h n) ((if n =? root then [ones] else []) ++ contributions rd h' h order n) = Some (gradOf h' n)) /\
+  (forall c, In c order -> gradOf h' c <> None) /\
+  (forall c e, In c order -> In e (edgesOf h c) -> trackedOf h (fst e) = true ->
+               exists g, eval_rule rd h' (snd e) = Ok g) /\
+  log = rev (logOf h' order).
+Proof.
+  intros Hown Hwf Hroot E order.
+  destruct (topoOrder_facts h root Hwf Hroot) as (F1 & F2 & F3 & _ & F5 & _ & F7 & _). fold order in F1, F2, F3, F5, F7.
+  destruct (bp_topo_adjoint rd h root h' log Hown Hwf Hroot F1 F2 F3 F5 E)
+    as (rv & ones & C1 & C2 & C3 & C4 & C5 & C6 & _ & C8).
+  destruct (bp_topo_graded rd h root h' log Hown Hwf Hroot F1 F2 F3 F5 F7 E) as (G1 & G2 & _).
+  exists rv, ones. repeat (split; [assumption|]). assumption.
+Qed.
+
+Theorem bp_topo_rule_count_closed rd (h : heap) root h' log k :
+  rules_own h -> wf_heap h -> trackedOf h root = true ->
+  bp_topo_cnt rd h root = (h', log, Ok tt, k) ->
+  bp_topo rd (fun _ g => g) h root = (h', log, Ok tt) /\
+  k = length (tracked_edges h (topoOrder h root)) /\
+  k <= length (flat_map (@nedges A) h) /\
+  length (topoOrder h root) <= S root.
+Proof.
+  intros Hown Hwf Hroot E.
+  destruct (topoOrder_facts h root Hwf Hroot) as (F1 & F2 & F3 & _ & F5 & _ & F7 & F8).
+  destruct (bp_topo_rule_count rd h root h' log k Hown Hwf Hroot F1 F2 F3 E) as (R1 & R2 & R3).
+  destruct (bp_topo_graded rd h root h' log Hown Hwf Hroot F1 F2 F3 F5 F7 R1) as (_ & _ & G3).
+  rewrite G3 in R2. repeat (split; [assumption|]). assumption.
+Qed.
+
+Lemma bp_topo_untracked rd sealg (h : heap) root :
+  trackedOf h root = false -> bp_topo rd sealg h root = (h, [], Ok tt).
+Proof. intros H. unfold bp_topo. rewrite H. reflexivity. Qed.
+
 End BackpropP.
 
 (* ------------------------------------------------------------------------------------ *)
@@ -1053,7 +1497,74 @@ Definition topo_count (d : nat) : nat := let '(h, y) := chainH d in snd (bp_topo
 Definition edge_count (d : nat) : nat := length (flat_map (@nedges Z) (fst (chainH d))).
 
 Definition depths : list nat := [1; 2; 3; 4; 5; 6]%nat.
-Eval vm_compute in (map walk_count depths, map topo_count depths, map edge_count depths,
-                    map (fun d => let '(h, y) := chainH d in (length h, length (topoOrder h y))) depths).
+
+(* exponential for the pinned walk (2^(d+2) - 3 accumulations), linear for bp_topo (4 d rule evaluations
+   = all the back edges of the heap: each Add is two Broadcast nodes and one Add node) *)
+Example walk_rule_counts :
+  map walk_count depths = [5; 13; 29; 61; 125; 253]%nat /\
+  map walk_count depths = map (fun d => 2 ^ (d + 2) - 3)%nat depths /\
+  map topo_count depths = [4; 8; 12; 16; 20; 24]%nat /\
+  map topo_count depths = map edge_count depths /\
+  map (fun d => let '(h, y) := chainH d in (length h, length (topoOrder h y))) depths
+    = [(4, 4); (7, 7); (10, 10); (13, 13); (16, 16); (19, 19)]%nat /\
+  map (fun d => let '(h, y) := chainH d in (snd (bp_walk RedSum 100 h y), snd (fst (bp_topo_cnt RedSum h y)))) depths
+    = map (fun _ => (Ok tt, Ok tt)) depths.
+Proof. vm_compute. repeat split. Qed.
+
+(* the hypotheses of the theorems are satisfiable and the conclusion is not trivial: the diamond *)
+Lemma dh_eq :
+  dh = fst (h_arith (fst (h_scale (fst (leaf [] (vec2 3 5) true None)) 0%nat 2 None)) BiAdd 1%nat 1%nat None).
+Proof. vm_compute. reflexivity. Qed.
+
+Lemma dh_rules_own : rules_own dh.
+Proof. rewrite dh_eq. apply rules_own_arith, rules_own_scale, rules_own_leaf, rules_own_nil. Qed.
+Lemma dh_wf_heap : wf_heap dh.
+Proof. rewrite dh_eq. apply wf_heap_arith. unfold h_scale. apply wf_heap_op1, wf_heap_leaf, wf_heap_nil. Qed.
+
+Example diamond_adjoint :
+  exists h' log,
+    bp_topo RedSum ids dh dy = (h', log, Ok tt) /\
+    trackedOf dh dy = true /\ topoOrder dh dy = [4; 3; 2; 1; 0]%nat /\
+    (* m (node 1) receives one contribution from each of its two consumers (the two Broadcast nodes) *)
+    contributions RedSum h' dh (topoOrder dh dy) 1 = [vec2 1 1; vec2 1 1] /\
+    gradOf h' 1 = Some (vec2 2 2) /\
+    (* x (node 0) receives a single contribution, computed from the final gradient [2;2] of m *)
+    contributions RedSum h' dh (topoOrder dh dy) 0 = [vec2 4 4] /\
+    gradOf h' 0 = Some (vec2 4 4) /\
+    map fst log = [0; 1; 2; 3; 4]%nat /\
+    snd (bp_topo_cnt RedSum dh dy) = 5%nat.
+Proof.
+  eexists. eexists. split; [vm_compute; reflexivity|]. vm_compute. repeat split.
+Qed.
+
+(* bp_topo_correct instantiated on the diamond *)
+Example diamond_correct :
+  let r := bp_topo RedSum ids dh dy in
+  forall n, In n [4; 3; 2; 1; 0]%nat ->
+    accAll (gradOf dh n) ((if (n =? dy)%nat then [vec2 1 1] else []) ++
+                          contributions RedSum (fst (fst r)) dh (topoOrder dh dy) n)
+    = Some (gradOf (fst (fst r)) n).
+Proof.
+  intros r n Hn.
+  assert (E : bp_topo RedSum ids dh dy = (fst (fst r), snd (fst r), Ok tt)) by (vm_compute; reflexivity).
+  destruct (bp_topo_correct RedSum dh dy _ _ dh_rules_own dh_wf_heap eq_refl E)
+    as (rv & ones & C1 & C2 & _ & _ & _ & C6 & _).
+  assert (Hones : ones = vec2 1 1).
+  { vm_compute in C1. inversion C1; subst rv. vm_compute in C2. inversion C2. reflexivity. }
+  subst ones. apply C6. change (topoOrder dh dy) with [4; 3; 2; 1; 0]%nat. exact Hn.
+Qed.
 
 End Witness.
+
+Print Assumptions eval_rule_ext.
+Print Assumptions bp_topo_adjoint.
+Print Assumptions bp_topo_graded.
+Print Assumptions bp_topo_rule_count.
+Print Assumptions topoOrder_facts.
+Print Assumptions bp_topo_correct.
+Print Assumptions bp_topo_rule_count_closed.
+Print Assumptions rules_own_arith.
+Print Assumptions rules_own_concat.
+Print Assumptions Witness.walk_refuted.
+Print Assumptions Witness.walk_rule_counts.
+Print Assumptions Witness.diamond_correct.
